@@ -2,7 +2,6 @@ package interp
 
 import (
 	"fmt"
-	"strings"
 	"go/constant"
 	"go/token"
 	"go/types"
@@ -182,8 +181,8 @@ func (ex *Exec) runFrame(fr *frame) {
 				ex.res.UnwindMax = fr.back[next]
 			}
 			limit := ex.unwind
-			if fr.fn.Pkg != nil && strings.Contains(fr.fn.Pkg.Pkg.Path(), "/internal/vsys/") {
-				limit = 4096 // environment-model code: its loops are over fixed small tables
+			if fr.fi.model {
+				limit = 1 << 20 // environment-model and harness code: loops over fixed tables / concrete payloads
 			}
 			if fr.back[next] > limit {
 				panic(pathEnd{PathInconclusive, fmt.Sprintf("unwind: loop at %s exceeded bound %d", ex.posString(ex.curPos), ex.unwind)})
